@@ -147,17 +147,23 @@ def make():
                 g.require(seen["fds"].get("out") == os.path.join(out, "stdout.log") and seen["fds"].get("err") == os.path.join(out, "stderr.log"),
                           "log:parallel-task-not-handed-its-log-files", "child stdio was %s; %s" % (seen["fds"], D))
                 g.goal("parallel slot logging straight to files")
-            for fname, val in (("args.json", args), ("options.json", opts)):
-                f = os.path.join(out, fname)
-                if val:
-                    try:
-                        got_v = json.load(open(f)) if os.path.isfile(f) else None
-                        ok = got_v is not None and strict_eq(got_v, val)
-                    except ValueError:
-                        got_v, ok = "<undecodable>", False
-                    g.require(ok, "record:%s-wrong" % fname, "%s decodes to %r, declared %r (types matter); %s" % (fname, got_v, val, D))
-                else:
-                    g.require(not os.path.exists(f), "record:%s-unexpected" % fname, "%s exists although nothing was declared; %s" % (fname, D))
+            recs = [("e", out, args, opts)]
+            if twin:
+                pw = [x for x in kern.tasks() if x.name == "w"][0]
+                recs.append(("w", pw.env["COND_OUT"], TWIN[0], TWIN[1]))
+                g.goal("two experiments with element-wise equal arguments of different types")
+            for tname, tout, targs, topts in recs:
+                for fname, val in (("args.json", targs), ("options.json", topts)):
+                    f = os.path.join(tout, fname)
+                    if val:
+                        try:
+                            got_v = json.load(open(f)) if os.path.isfile(f) else None
+                            ok = got_v is not None and strict_eq(got_v, val)
+                        except ValueError:
+                            got_v, ok = "<undecodable>", False
+                        g.require(ok, "record:%s-wrong" % fname, "//:%s %s decodes to %r, declared %r (types matter); %s" % (tname, fname, got_v, val, D))
+                    else:
+                        g.require(not os.path.exists(f), "record:%s-unexpected" % fname, "%s exists although nothing was declared; %s" % (fname, D))
             if any(len(c) >= 4096 for c in out_chunks):
                 g.goal("chunk of at least one tee buffer")
             if any(len(c) > 65536 for c in out_chunks):
